@@ -100,6 +100,13 @@ func ScopeMiddleware(provider godi.Provider, opts ...Option) fiber.Handler {
 			return cfg.ErrorHandler(c, err)
 		}
 
+		// Close scope after request completes, also when a handler panics and an outer middleware recovers
+		defer func() {
+			if closeErr := scope.Close(); closeErr != nil {
+				cfg.CloseErrorHandler(closeErr)
+			}
+		}()
+
 		// Store scope in context and locals
 		c.SetUserContext(scope.Context())
 		c.Locals(scopeKey, scope)
@@ -107,20 +114,12 @@ func ScopeMiddleware(provider godi.Provider, opts ...Option) fiber.Handler {
 		// Run middlewares
 		for _, mw := range cfg.Middlewares {
 			if err := mw(scope, c); err != nil {
-				scope.Close()
 				return cfg.ErrorHandler(c, err)
 			}
 		}
 
 		// Execute handler chain
-		err = c.Next()
-
-		// Close scope after request completes
-		if closeErr := scope.Close(); closeErr != nil {
-			cfg.CloseErrorHandler(closeErr)
-		}
-
-		return err
+		return c.Next()
 	}
 }
 
